@@ -182,8 +182,10 @@ def verify_one(task):
     elif task["backend"] == "z3":
         cb += ["--z3"]
     rc, out, t3 = _run(cb + [gb2], task.get("timeout", 120))
-    if "too many addressed objects" in out:
-        cb[cb.index("--object-bits") + 1] = "12"
+    for ob in ("12", "14"):
+        if "too many addressed objects" not in out:
+            break
+        cb[cb.index("--object-bits") + 1] = ob
         rc, out, t3b = _run(cb + [gb2], task.get("timeout", 120))
         t3 += t3b
     res["seconds"] = t1 + t2 + t3
@@ -213,6 +215,10 @@ def verify_one(task):
         res.update(status="infra" if rc not in (0, 10) else "undecided", detail="no result from cbmc: " + " | ".join(msgs)[-1500:])
         return res
     bad_msgs = [m for m in msgs if "ignoring" in m or "no body for function" in m]
+    # "not enough arguments": a specification helper (called only from contract clauses, which dfcc leaves uninstrumented) calls a helper
+    # that dfcc did instrument (extra write-set parameter); CBMC passes a non-deterministic pointer, through which the contracts library
+    # only records local declarations -- the helper's result does not depend on it.  Counted and reported as an assumption.
+    res["write_set_arg_warnings"] = len([m for m in msgs if "not enough arguments" in m])
     canary = [p for p in props if "canary" in p.get("description", "")]
     real = [p for p in props if "canary" not in p.get("description", "")]
     res["n_props"] = len(real)
@@ -241,6 +247,13 @@ def verify_one(task):
     return res
 
 
+DEADLINE = None     # wall-clock budget of the quick tier: tasks not started by then are listed as "not run", never counted
+
+
+def _budget_left():
+    return None if DEADLINE is None else DEADLINE - time.time()
+
+
 def verify_chain(task):
     """run the attempts of a task in order until one proves it or a concrete-mode counterexample is found"""
     best = None
@@ -249,6 +262,14 @@ def verify_chain(task):
     for (mode, backend, tmo) in task["attempts"]:
         if abstract_failed and mode != "concrete":
             continue
+        left = _budget_left()
+        if left is not None:
+            if left < 20:
+                if best is None:
+                    best = {"target": task["target"], "mode": mode, "backend": backend, "stem": task["stem"], "status": "undecided",
+                            "detail": "not run: time budget of the quick tier exhausted", "seconds": 0, "budget": True}
+                break
+            tmo = int(min(tmo, max(20, left)))
         t = dict(task)
         t.update(mode=mode, backend=backend, timeout=tmo)
         r = verify_one(t)
